@@ -92,6 +92,28 @@ def gen_spec(rng: random.Random, S=None, A=None, E=None, kind="random", R=None, 
                         nxt[s][a][e], rew[s][a][e] = (0, -cR) if good else (1, cR)
         amins, amaxs = make_box(rng, A, adim, True, unit_dim=0.35)
         tags.append("twosink")
+    if kind == "invest" and S >= 3:
+        # unichain, aperiodic "investment chain": action 1 pays a cost now and moves one step up with probability 1/2 (else stays); the top
+        # state pays R; every other action cashes in a small reward and falls back to state 0.  The myopic (one-sweep) policy never invests,
+        # the optimal one does: a policy extracted too early is far from optimal
+        A = max(A, 2)
+        E = 2
+        emins, emaxs = [0], [1]
+        amins, amaxs = make_box(rng, A, adim, True, unit_dim=0.35)
+        nxt = [[[0] * E for _ in range(A)] for _ in range(S)]
+        rew = [[[0.0] * E for _ in range(A)] for _ in range(S)]
+        prob = [[[0.5, 0.5] for _ in range(A)] for _ in range(S)]
+        for s in range(S):
+            for a in range(A):
+                for e in range(E):
+                    if a == 1:
+                        if s == S - 1:
+                            nxt[s][a][e], rew[s][a][e] = 0, float(R * S)
+                        else:
+                            nxt[s][a][e], rew[s][a][e] = (s + 1 if e == 0 else s), -float(max(1, R // 4))
+                    else:
+                        nxt[s][a][e], rew[s][a][e] = 0, float(max(1, R // 8)) - float(a)
+        tags.append("invest")
     if kind == "periodic":
         # deterministic cycle structure of period p over classes s % p; every action moves to the next class
         p = rng.randint(2, min(4, max(2, S)))
